@@ -148,12 +148,12 @@ func chunkSource(ps []*progCase) string {
 }
 
 // generate runs the TLC generator for this tier and seed
-func generate(r *core.Run, cfgName string, subst map[string]string) (*envTable, []*progCase, *tlcrun.Result) {
+func generate(r *core.Run, cfgName string, subst map[string]string) (*envTable, []*progCase, []*optCase, *tlcrun.Result) {
 	cfgPath := filepath.Join(r.Verif, "spec", "cfg", cfgName)
 	raw, err := os.ReadFile(cfgPath)
 	if err != nil {
 		r.Infra("cannot read %s: %v", cfgPath, err)
-		return nil, nil, nil
+		return nil, nil, nil, nil
 	}
 	cfg := string(raw)
 	for k, v := range subst {
@@ -162,6 +162,7 @@ func generate(r *core.Run, cfgName string, subst map[string]string) (*envTable, 
 	}
 	var table *envTable
 	var progs []*progCase
+	var opts []*optCase
 	var mu sync.Mutex
 	res := tlcrun.MustHold(r, tlcrun.Options{Module: "JsSemGen", Config: cfgName, Workers: 5, TimeoutSec: r.Pick(600, 3000), XssMB: 256,
 		Files: map[string]string{cfgName: cfg},
@@ -184,6 +185,15 @@ func generate(r *core.Run, cfgName string, subst map[string]string) (*envTable, 
 				table = &t
 				return
 			}
+			if head.Spec == "JsSemOpt" {
+				var o optCase
+				if err := json.Unmarshal(raw, &o); err != nil {
+					r.Infra("undecodable option case: %v", err)
+					return
+				}
+				opts = append(opts, &o)
+				return
+			}
 			var p progCase
 			if err := json.Unmarshal(raw, &p); err != nil {
 				r.Infra("undecodable program case: %v", err)
@@ -203,7 +213,7 @@ func generate(r *core.Run, cfgName string, subst map[string]string) (*envTable, 
 		}
 		return progs[i].Idx < progs[j].Idx
 	})
-	return table, progs, res
+	return table, progs, opts, res
 }
 
 func (t *envTable) nodeInput() nodeIn {
@@ -234,12 +244,16 @@ type chunkWork struct {
 
 // programBinding replays the generated programs into the real minifier and V8
 func programBinding(r *core.Run, cfgName string) {
-	table, progs, res := generate(r, cfgName, map[string]string{"Seed": fmt.Sprint(r.Seed)})
+	table, progs, opts, res := generate(r, cfgName, map[string]string{"Seed": fmt.Sprint(r.Seed)})
 	if res == nil || table == nil || len(progs) == 0 {
 		r.Infra("the program generator exported nothing")
 		return
 	}
 	r.Set("tlc_"+strings.TrimSuffix(cfgName, ".cfg"), map[string]interface{}{"generated": res.Generated, "distinct": res.Distinct, "cases": len(progs)})
+	var owg sync.WaitGroup
+	owg.Add(1)
+	go func() { defer owg.Done(); optionsBinding(r, table, opts) }()
+	defer owg.Wait()
 	variants := variantsFor(r)
 	vnames := []string{}
 	for _, v := range variants {
@@ -544,4 +558,189 @@ func confirmMismatches(r *core.Run, table *envTable, pends []pend) {
 	r.Set("mismatches_confirmed_on_demand", confirmed)
 	r.Set("mismatches_not_exact_in_spec", notExact)
 	r.Set("mismatches_not_asked", unasked)
+}
+
+// ---- define / pure / drop / drop-labels ----
+
+type optCase struct {
+	Idx    int       `json:"idx"`
+	Dv     Val       `json:"dv"`
+	Prog   []node    `json:"prog"`
+	Keep   []node    `json:"keep"`
+	Drop   []node    `json:"drop"`
+	Rows   [][]int   `json:"rows"`
+	Expect []outcome `json:"expect"` // rows of keep, then rows of drop
+}
+
+func optTransform(src string, dv Val, v variant) (string, error) {
+	return transform(src, api.LoaderJS, v.syntax, v.whitespace, v.identifiers, v.keepNames, func(o *api.TransformOptions) {
+		o.Define = map[string]string{"DEF": strings.Trim(dv.JS(), "()")}
+		o.Pure = []string{"f"}
+		o.Drop = api.DropConsole | api.DropDebugger
+		o.DropLabels = []string{"DEV"}
+	})
+}
+
+// events of a canonical trace string
+func splitTrace(t string) ([]string, string) {
+	i := strings.LastIndex(t, "|")
+	if i < 0 {
+		return nil, t
+	}
+	if t[:i] == "" {
+		return nil, t[i+1:]
+	}
+	return strings.Split(t[:i], ";"), t[i+1:]
+}
+
+// betweenKeepAndDrop: the output trace must be the keep trace minus some calls of the
+// pure function f that the drop trace does not have either (any subset of the unused
+// pure calls may be removed), with the same completion
+func betweenKeepAndDrop(keep, drop, out string) bool {
+	ke, kc := splitTrace(keep)
+	de, dc := splitTrace(drop)
+	oe, oc := splitTrace(out)
+	if oc != kc && oc != dc {
+		return false
+	}
+	sub := func(small, big []string) bool { // small is a subsequence of big, the skipped events being calls of f
+		j := 0
+		for _, e := range big {
+			if j < len(small) && small[j] == e {
+				j++
+			} else if !strings.HasPrefix(e, "f(") {
+				return false
+			}
+		}
+		return j == len(small)
+	}
+	return sub(oe, ke) && sub(de, oe)
+}
+
+// optionsBinding: programs with marked identifiers / calls / labels; the reference is the
+// program after the requested substitutions (computed by JsSemProgs!Reference)
+func optionsBinding(r *core.Run, table *envTable, cases []*optCase) {
+	if len(cases) == 0 {
+		return
+	}
+	variants := []variant{{name: "none"}, {name: "S", syntax: true}, {name: "SWI", syntax: true, whitespace: true, identifiers: true}}
+	if r.Thorough() {
+		variants = append(variants, variant{name: "W", whitespace: true}, variant{name: "I", identifiers: true}, variant{name: "SW+keep", syntax: true, whitespace: true, keepNames: true})
+	}
+	byDv := map[int][]*optCase{}
+	for _, c := range cases {
+		byDv[c.Idx] = append(byDv[c.Idx], c)
+	}
+	var jobs []job
+	type meta struct {
+		cs   []*optCase
+		mode string // keep | drop
+	}
+	metas := map[string]meta{}
+	for dvi, cs := range byDv {
+		sort.Slice(cs, func(i, j int) bool { return function(cs[i].Prog) < function(cs[j].Prog) })
+		var orig, keep, drop strings.Builder
+		var units []unit
+		for k, c := range cs {
+			fmt.Fprintf(&orig, "globalThis.main%d = %s;\n", k, function(c.Prog))
+			fmt.Fprintf(&keep, "globalThis.main%d = %s;\n", k, function(c.Keep))
+			fmt.Fprintf(&drop, "globalThis.main%d = %s;\n", k, function(c.Drop))
+			want := []int{}
+			for _, row := range c.Rows {
+				want = append(want, row[0]*table.Q+row[1])
+			}
+			units = append(units, unit{ID: fmt.Sprint(k), Call: fmt.Sprintf("main%d(__env.a, __env.b)", k), EnvSet: "q", Want: want})
+		}
+		var outs []string
+		for _, v := range variants {
+			out, err := optTransform(orig.String(), cs[0].Dv, v)
+			if err != nil {
+				r.Infra("esbuild rejected the define/pure/drop chunk (DEF=%s, %s): %v", cs[0].Dv.Ser(), v.name, err)
+				outs = append(outs, "throw new Error('transform failed')")
+				continue
+			}
+			outs = append(outs, out)
+		}
+		for _, mode := range []string{"keep", "drop"} {
+			ref := keep.String()
+			if mode == "drop" {
+				ref = drop.String()
+			}
+			id := fmt.Sprintf("opt-%d-%s", dvi, mode)
+			jobs = append(jobs, job{ID: id, Srcs: append([]string{ref}, outs...), Units: units})
+			metas[id] = meta{cs: cs, mode: mode}
+		}
+	}
+	in := table.nodeInput()
+	in.Jobs = jobs
+	in.MaxMis = 1000
+	results := runNode(r, in, 4, 10*time.Minute)
+	nOK, nCases := 0, 0
+	for dvi, cs := range byDv {
+		kr, dr := results[fmt.Sprintf("opt-%d-keep", dvi)], results[fmt.Sprintf("opt-%d-drop", dvi)]
+		if kr == nil || dr == nil {
+			continue
+		}
+		for _, e := range append(append([]jobErr{}, kr.Errors...), dr.Errors...) {
+			if e.Variant == 0 {
+				r.Infra("V8 rejected a reference program of the define/pure/drop family: %s", e.Error)
+			} else {
+				r.Violation(map[string]interface{}{"kind": "opt-output-error", "variant": variants[e.Variant-1].name, "define": cs[0].Dv.Ser()},
+					"the output of the define/pure/drop chunk does not run: "+e.Error, map[string]interface{}{"error": e.Error})
+			}
+		}
+		for k, c := range cs {
+			nCases++
+			ku, du := &kr.Units[k], &dr.Units[k]
+			// spec vs V8 on the reference programs
+			drift := false
+			for ri, row := range c.Rows {
+				ek := envKey(row[0]*table.Q + row[1])
+				for half, ur := range []*unitRes{ku, du} {
+					exp := &c.Expect[half*len(c.Rows)+ri]
+					if got, ok := ur.Traces[ek]; ok && exp.C != "unk" && exp.canonical() != got {
+						drift = true
+						r.Drift("JsSem and V8 disagree on a reference program (define/pure/drop family)\n%s\n  spec: %s\n  V8:   %s", function(c.Keep), exp.canonical(), got)
+					}
+				}
+			}
+			src := function(c.Prog)
+			id := core.Hash(src + c.Dv.Ser())
+			r.Case(id, function(c.Keep) != src)
+			if drift {
+				continue
+			}
+			// output vs reference: equal to keep, or to drop, or between them
+			dropBy := map[[2]int]mismatch{}
+			for _, m := range du.Mismatches {
+				dropBy[[2]int{m.Variant, m.Env}] = m
+			}
+			bad := false
+			for _, m := range ku.Mismatches {
+				d, both := dropBy[[2]int{m.Variant, m.Env}]
+				if !both {
+					continue // equals the drop reference in this environment
+				}
+				if betweenKeepAndDrop(m.Input, d.Input, m.Output) {
+					continue
+				}
+				bad = true
+				v := variants[m.Variant-1]
+				out, _ := optTransform("globalThis.main = "+src+";", c.Dv, v)
+				r.Violation(map[string]interface{}{"kind": "opt", "source": src, "define": c.Dv.Ser(), "variant": v.name},
+					fmt.Sprintf("with define DEF=%s, pure:f, drop:console,debugger, drop-labels:DEV (minify %s) the output does not behave like the program after the requested substitutions:\n%s\n  reference (pure calls kept)   : %s\n  reference (unused pure dropped): %s\n  output                         : %s",
+						c.Dv.Ser(), v.name, src, m.Input, d.Input, m.Output),
+					map[string]interface{}{"input": "globalThis.main = " + src + ";", "output": out, "reference_keep": function(c.Keep), "reference_drop": function(c.Drop),
+						"options": map[string]interface{}{"define": map[string]string{"DEF": c.Dv.JS()}, "pure": []string{"f"}, "drop": []string{"console", "debugger"}, "dropLabels": []string{"DEV"}, "minify": v.options()},
+						"env_row": []int{m.Env / table.Q, m.Env % table.Q}, "v8_reference_keep": m.Input, "v8_reference_drop": d.Input, "v8_output": m.Output})
+				break
+			}
+			if !bad {
+				nOK++
+			}
+		}
+	}
+	r.AddEvaluations(int64(nCases * len(variants) * len(table.Rows)))
+	r.Set("option_programs", nCases)
+	r.Logf("define/pure/drop/drop-labels: %d (program, define value) cases x %d minify sets, %d behave like their reference", nCases, len(variants), nOK)
 }
